@@ -12,8 +12,14 @@ HERE = os.path.dirname(os.path.dirname(os.path.abspath(__file__)))
 repo = sys.argv[1]
 sub = 'seeded'
 rest = sys.argv[2:]
-if rest and rest[0].startswith('--dir='):
-    sub = rest[0][6:]
+own = False
+outname = 'MATRIX.json'
+while rest and rest[0].startswith('--'):
+    if rest[0].startswith('--dir='):
+        sub = rest[0][6:]
+    elif rest[0] == '--own':        # only the check of the seeded change's own property
+        own = True
+        outname = 'OWN.json'
     rest = rest[1:]
 seeds = rest or sorted(d for d in os.listdir(os.path.join(HERE, sub)) if os.path.isfile(os.path.join(HERE, sub, d, 'patch.diff')))
 checks = ['C%02d' % i for i in range(1, 21)]
@@ -25,7 +31,7 @@ for sid in ['(unchanged)'] + seeds:
     if sid != '(unchanged)':
         subprocess.run(['git', '-C', repo, 'apply', os.path.join(HERE, sub, sid, 'patch.diff')], check=True)
     row = {}
-    for c in checks:
+    for c in ([sid[:3]] if own and sid != '(unchanged)' else checks):
         p = subprocess.run(['/venv/bin/python', os.path.join(HERE, 'check.py'), c, '--tier', 'quick'], capture_output=True, text=True, cwd=HERE, env=env)
         viol = [l for l in p.stdout.split('\n') if l.startswith('VIOLATION')]
         if p.returncode == 0:
@@ -36,5 +42,5 @@ for sid in ['(unchanged)'] + seeds:
             row[c] = 'error rc=%d %s' % (p.returncode, (p.stdout + p.stderr)[-200:])
     out[sid] = row
     print(sid, ' '.join('%s=%s' % (c, {'pass': '.', 'violation': 'V', 'unproved': 'u'}.get(v, 'E')) for c, v in row.items()), flush=True)
-    json.dump(out, open(os.path.join(HERE, sub, 'MATRIX.json'), 'w'), indent=1)
+    json.dump(out, open(os.path.join(HERE, sub, outname), 'w'), indent=1)
 subprocess.run(['git', '-C', repo, 'checkout', '--', '.'], check=True)
